@@ -218,6 +218,14 @@ def delayed_hosts(tier):
             b = draw(st.integers(1, 2))
             f = ('tun', draw(st.sampled_from(['eventually', 'always'])), draw(st.integers(0, b)), b, f)
         op = draw(st.sampled_from(['and', 'or', 'implies']))
+        if draw(st.integers(0, 2)) == 0:
+            # a user-written pure delay as a named sub-specification: a = once[k,k](x)
+            k = draw(st.integers(1, 3))
+            d = ('tun', draw(st.sampled_from(['once', 'historically'])), k, k, v)
+            c['formula'] = ('bin', op, d, f)
+            c['subs'] = [d] + [s for s in c['subs'] if from_json(s) != d]
+            c['subs'].sort(key=lambda s: (F.size(from_json(s)), repr(s)))
+            return c
         c['formula'] = ('bin', op, v, f) if draw(st.booleans()) else ('bin', op, f, v)
         return c
     return mk()
